@@ -15,8 +15,12 @@ FieldWire(ident, rename, rule) ==
 
 \* struct fields take the STRUCT's rename_all; fields of a struct variant take the VARIANT's rename_all,
 \* never the enum's (serde: container attribute rename_all on an enum renames variants only)
+\* - except through the enum's rename_all_fields, which is the rule for the fields of every struct variant that has no
+\* rename_all of its own (serde_derive: variant.rename_all_rules().or(container.rename_all_fields_rules()))
 RuleForField(container) ==
-    IF container.kind = "struct" THEN container.rename_all ELSE container.variant_rename_all
+    IF container.kind = "struct" THEN container.rename_all
+    ELSE IF container.variant_rename_all # "none" THEN container.variant_rename_all
+    ELSE container.enum_rename_all_fields
 
 VariantWire(ident, rename, enumRule) ==
     IF rename # None THEN rename
